@@ -77,6 +77,9 @@ def gen(rng, tier):
             'slow_service': rng.choice([0.0, 0.0, 0.2]),
             # requests submitted right when the master registers its queue
             # with the scheduler, and line level pre-emption in the scheduler
+            # a cancel request naming the requests which wait in the
+            # scheduler's raptor backlog (master not yet registered)
+            'cancel_backlog': rng.random() < 0.3,
             'at_register': rng.choice([0, 0, 1, 3]),
             'preempt': rng.choice([0.0, 0.0, 0.1, 0.3])}
 
@@ -240,7 +243,16 @@ class _Server(object):
 
 # ------------------------------------------------------------------------------
 #
-def run(seed, scenario, trace=None, tier='quick'):
+def run(seed, scenario, trace=None, tier='quick', prop=PROP):
+    res = _run(seed, scenario, trace, tier)
+    res['violations'] = [x for x in res['violations']
+                         if x['property'] == prop]
+    if res['status'] == 'violation' and not res['violations']:
+        res['status'] = 'ok'
+    return res
+
+
+def _run(seed, scenario, trace=None, tier='quick'):
 
     sc = scenario
 
@@ -250,7 +262,8 @@ def run(seed, scenario, trace=None, tier='quick'):
               'held': {}, 'results': {}, 'exec_routed': {}, 'tasks': {},
               'env_before': None, 'worker_proc': None, 'dispatched': set(),
               'proc_uid': {}, 'fork_failed': set(), 'cur_req': None,
-              'svc': {}, 'extra': {}}
+              'svc': {}, 'extra': {}, 'canceled': set(),
+              'master_started': False}
         sim.data['c20'] = st
 
         def os_process(name, environ, cwd):
@@ -423,6 +436,25 @@ def run(seed, scenario, trace=None, tier='quick'):
                         put.put([task])
                 sim.spawn(at_register, 'at_register', group='driver')
 
+            if sc.get('cancel_backlog') and sc['late_master']:
+                def cancel_backlog():
+                    sim.sleep(0.4)
+                    if st['master_started']:
+                        return
+                    uids = sorted(u for u, i in st['tasks'].items()
+                                  if sc['reqs'][i]['at'] == 0.0 and
+                                  sc['reqs'][i]['mode'] != 'executable')
+                    if len(uids) < 2:
+                        return
+                    sim.fault('cancel_backlog')
+                    st['canceled'] = set(uids)
+                    cpub = N.Publisher(rpc.CONTROL_PUBSUB, url=reg[
+                        'bridges.%s' % rpc.CONTROL_PUBSUB]['addr_pub'])
+                    cpub.put(rpc.CONTROL_PUBSUB, {
+                        'cmd': 'cancel_tasks',
+                        'arg': {'uids': uids, 'tmgr': 'tmgr.0000'}})
+                sim.spawn(cancel_backlog, 'cancel_backlog', group='driver')
+
             tl = sorted((r['at'], i) for i, r in enumerate(sc['reqs']))
             t0 = sim.now
             started_master = not sc['late_master']
@@ -435,6 +467,7 @@ def run(seed, scenario, trace=None, tier='quick'):
                 if not started_master and at > 0.5:
                     # requests arriving before the master registered its queue
                     # are kept by the scheduler (raptor backlog)
+                    st['master_started'] = True
                     sim.spawn(master_main, 'master.main', proc=mproc,
                               group='master')
                     started_master = True
@@ -447,6 +480,9 @@ def run(seed, scenario, trace=None, tier='quick'):
                 st['tasks'][task['uid']] = i
                 put.put([task])
             if not started_master:
+                if sc.get('cancel_backlog'):
+                    sim.sleep(max(0.0, t0 + 0.6 - sim.now))
+                st['master_started'] = True
                 sim.spawn(master_main, 'master.main', proc=mproc,
                           group='master')
 
@@ -454,7 +490,8 @@ def run(seed, scenario, trace=None, tier='quick'):
             limit = sim.now + 60.0
             while sim.now < limit:
                 sim.sleep(0.5)
-                if all(u in st['results'] or u in st['exec_routed']
+                if all(u in st['results'] or u in st['exec_routed'] or
+                       u in st['canceled']
                        for u in st['tasks']) and net.idle() and \
                         all(v['ret'] is not None for v in st['svc'].values()):
                     break
@@ -585,6 +622,16 @@ def run(seed, scenario, trace=None, tier='quick'):
                     getattr(m, '_task_service_data', None):
                 sim.violation(PROP, 'result_count', 'task_service_leak',
                               {'left': sorted(m._task_service_data)})
+            for uid in sorted(st['canceled']):
+                # C08: named while waiting in the raptor backlog - taken out
+                # of it, not handed to the master when that registers
+                ran = uid in st['dispatched']
+                if ran or st['results'].get(uid):
+                    sim.violation('C08', 'named_backlog_ran', 'scheduler',
+                                  {'uid': uid, 'dispatched': ran,
+                                   'results': len(st['results'].get(uid,
+                                                                    []))})
+                judged.pop(uid, None)
             for uid, i in sorted(judged.items()):
                 r = sc['reqs'][i] if i < len(sc['reqs']) else st['extra'][i]
                 res = st['results'].get(uid, [])
